@@ -412,6 +412,18 @@ def bounded(b):
                 want = sorted((ob, db, p) for (ob, db, _, _, p) in base)
                 same = got == want
             b.case("inverse/note_array_to_score_and_back_same_onsets_durations_pitches", same, case, "round trip %r, expected %r" % (got, want))
+    # arrays that carry the spelling (step, alter, octave): the notes of the new score are built from numpy scalars
+    spelled = [(0.0, 1.0, 61, "C", 1, 4), (1.0, 1.0, 63, "E", -1, 4), (2.0, 1.0, 78, "F", 1, 5), (3.0, 1.0, 57, "A", 0, 3), (4.0, 2.0, 58, "C", -2, 4), (6.0, 2.0, 62, "C", 2, 4)]
+    for adt in ("i4", "i8", "i2"):
+        na = np.array([(o, d, p, st, al, oc) for (o, d, p, st, al, oc) in spelled],
+                      dtype=[("onset_beat", "f4"), ("duration_beat", "f4"), ("pitch", "i4"), ("step", "U1"), ("alter", adt), ("octave", adt)])
+        case = {"inverse": "beat", "spelling_columns": True, "alter_dtype": adt}
+        ok, score = b.guard("inverse/no_exception", case, lambda: note_array_to_score(na))
+        if ok:
+            back = score.note_array(include_pitch_spelling=True) if hasattr(score, "note_array") else score[0].note_array(include_pitch_spelling=True)
+            got = sorted((round(float(r["onset_beat"]), 4), round(float(r["duration_beat"]), 4), int(r["pitch"]), str(r["step"]), int(r["alter"]), int(r["octave"])) for r in back)
+            want = sorted((o, d, p, st, al, oc) for (o, d, p, st, al, oc) in spelled)
+            b.case("inverse/note_array_to_score_and_back_same_onsets_durations_pitches", got == want, case, "round trip %r, expected %r" % (got, want))
     _inverse_from_parts(b)
 
 
